@@ -798,6 +798,7 @@ struct Engine : public vf::Engine {
             runOnce(scs, orders, cpp, outs, fails);
             for (size_t i = 0; i < scs.size(); i++) {
                 Vec<Cls> cls;
+                if (scs[i].scopeCopier || scs[i].unmodOut) { h.u64(outs[i].failures); continue; }      // (features of the C-versus-C++ comparison only: the reference matcher does not model a missing copier or an unmodified output parameter)
                 if (scs[i].preFail) {      // the test failed on its own; the mock check in its teardown (and the plugin's) must not fail it a second time
                     probe("scenario_fails_before_mock_check");
                     if (outs[i].failures != 1) r.fail("C08", "fails_once", sg("what", outs[i].failures > 1 ? "a test that had already failed was failed again by the mock check" : "the test's own failure was lost"), sfmt("scenario %zu schedule %d: %zu failures recorded", i, k, outs[i].failures));
